@@ -36,7 +36,7 @@ REQUIRED = ["Sqfs.C05." + n for n in (
     "super_read_safe", "id_table_read_safe", "index_to_id_safe", "frag_table_read_safe", "frag_lookup_safe",
     "xattr_load_safe", "xattr_get_desc_safe", "xattr_seek_kv_safe", "xattr_read_key_safe", "xattr_read_value_safe",
     "xattr_read_safe", "xattr_read_all_safe", "xattr_read_all_terminates", "open_dir_states",
-    "dir_entry_from_inode_safe", "read_link_safe")]
+    "dir_entry_from_inode_safe", "read_link_safe", "exTree_refs")]
 
 # known-finding keys (exactly the strings in known_findings.d/C05.json)
 K_D3 = "D3:sqfs_meta_reader_read:after-failed-seek"
